@@ -59,12 +59,22 @@ fn param_conversion(
         ast::TypeName::Option(inner, _stdlib) => {
             let mut tokens = TokenStream::new();
 
-            if !param_type.is_ffi_safe() {
-                let inner_ty = inner.ffi_safe_version().to_syn();
-                tokens.extend(quote!(let #name : Option<#inner_ty> = #name.into();));
-            }
-            if !inner.is_ffi_safe() {
-                tokens.extend(quote!(let #name = #name.map(|v| v.into());));
+            if let Some(cast_to) = cast_to {
+                // Callback arguments go the other way: from the Rust type to the FFI-safe type
+                if !inner.is_ffi_safe() {
+                    tokens.extend(quote!(let #name = #name.map(|v| v.into());));
+                }
+                if !param_type.is_ffi_safe() {
+                    tokens.extend(quote!(let #name : #cast_to = #name.into();));
+                }
+            } else {
+                if !param_type.is_ffi_safe() {
+                    let inner_ty = inner.ffi_safe_version().to_syn();
+                    tokens.extend(quote!(let #name : Option<#inner_ty> = #name.into();));
+                }
+                if !inner.is_ffi_safe() {
+                    tokens.extend(quote!(let #name = #name.map(|v| v.into());));
+                }
             }
 
             if !tokens.is_empty() {
